@@ -391,6 +391,8 @@ class Sim:
                 return local
             return None
         before = len(self.all_dead())
+        self._injected = False
+        self.monitor.tick_begin()
         if lines:
             sys.settrace(tracer)
         try:
@@ -408,6 +410,7 @@ class Sim:
                 g += ['e', 'c', 'm']
             elif ret is not False or len(self.all_dead()) > before:
                 g += ['e', 'c']
+        self.monitor.tick_end(ret is True, self._injected)
         self.monitor.on_tick_done()
         return ret
 
@@ -425,6 +428,12 @@ class Sim:
 
     def injection(self, b):
         """reads/writes by other threads between two phases of a running check (b = boundary 0..2)"""
+        out = self._injection(b)
+        if out:
+            self._injected = True
+        return out
+
+    def _injection(self, b):
         out = []
         if self.forced is not None:
             fb, kind = self.forced
@@ -481,6 +490,9 @@ class Monitor:
         self.last_in = Fraction(0)
         self.dead_seen = 0
         self.found = []           # (signature, what)
+        self.out_count = 0        # frames written by the client so far
+        self.window_from = None   # out_count at the end of the previous check (or at start): the current idle window
+        self.prev_injected = False
 
     def flag(self, sig, what):
         if not any(s == sig for s, _ in self.found):
@@ -508,6 +520,7 @@ class Monitor:
                 self.flag('C12/heartbeat-while-not-open', 'a heartbeat frame was sent while the connection is not open')
         self.check_silence('before this frame')
         self.last_out = self.sim.now
+        self.out_count += 1
 
     def on_in(self, n):
         self.check_dead(False)      # a dead declared before this frame arrived is judged without it
@@ -522,8 +535,26 @@ class Monitor:
             self.phase = 'up'
             self.last_out = self.last_in = self.sim.now
             self.dead_seen = self.n_dead()
+            self.window_from = self.out_count
+            self.prev_injected = False
         elif self.enabled:
             self.flag('C12/start-refused', 'the checker did not start although the timeout is positive')
+
+    def tick_begin(self):
+        self._quiet = self.window_from is not None and self.out_count == self.window_from
+        self._hb_before = sum(1 for _, d in self.sim.wire_out if d == HB_BYTES)
+        self._up = self.enabled and self.phase == 'up' and self.open and not self.multi
+
+    def tick_end(self, ran, injected):
+        """a whole check interval passed in which the client sent nothing: this check has to write a heartbeat (judged only
+        for a single timer chain and when nothing was injected into this check or the previous one)"""
+        hb = sum(1 for _, d in self.sim.wire_out if d == HB_BYTES) - self._hb_before
+        if self._up and self._quiet and ran and not injected and not self.prev_injected and hb == 0 \
+                and self.phase == 'up' and self.open:
+            self.flag('C12/idle-interval-without-heartbeat', 'a whole check interval (T/2) passed without the client sending anything and '
+                      'the check at its end wrote no heartbeat')
+        self.prev_injected = injected
+        self.window_from = self.out_count if self.phase == 'up' else None
 
     def on_stop(self, mid=False):
         # a stop that falls inside a running check: that check began while the checker was up and may still deliver
@@ -535,6 +566,8 @@ class Monitor:
     def on_open_flag(self, b):
         if b and not self.open:
             self.last_out = max(self.last_out, self.sim.now)
+        if b != self.open:
+            self.window_from = None      # (heartbeats are only written while open: judge whole open intervals only)
         self.open = b
 
     def check_silence(self, when):
